@@ -616,4 +616,52 @@ def initT {Out : Type} : TState Out := { tables := [], store := [] }
 
 def argStoreOK (s : ArgStore) : Bool := s.kind != .identity
 
+/-! ## (d) arrays returned by public helper functions -/
+
+inductive ROp where
+  /-- the function is called (by the user or by the library, e.g. `commutator` building on it) -/
+  | call
+  /-- the user writes `v` into the array the `r`-th call returned -/
+  | write (r : Nat) (v : Val)
+  deriving Repr
+
+structure RState where
+  /-- contents of the buffers (one value stands for the whole array) -/
+  bufs : List Val
+  /-- buffer of the array returned by the k-th call -/
+  results : List Nat
+  /-- the buffer a memoising decorator / module constant keeps, once it exists -/
+  kept : Option Nat
+
+def initR : RState := { bufs := [], results := [], kept := none }
+
+/-- `pristine` is what the function computes; a call reports what the caller finds in the
+    returned array -/
+def stepR (kind : ReturnKind) (pristine : Val) (st : RState) : ROp → RState × Option Val
+  | .write r v =>
+    match st.results[r]? with
+    | none => (st, none)
+    | some b => ({ st with bufs := st.bufs.set b v }, none)
+  | .call =>
+    match kind with
+    | .fresh =>
+      ({ st with bufs := st.bufs ++ [pristine], results := st.results ++ [st.bufs.length] },
+       some pristine)
+    | _ =>
+      match st.kept with
+      | some b => ({ st with results := st.results ++ [b] }, some (st.bufs.getD b pristine))
+      | none =>
+        ({ bufs := st.bufs ++ [pristine], results := st.results ++ [st.bufs.length],
+           kept := some st.bufs.length }, some pristine)
+
+def runR (kind : ReturnKind) (pristine : Val) (st : RState) : List ROp → RState
+  | [] => st
+  | op :: ops => runR kind pristine (stepR kind pristine st op).1 ops
+
+def outsR (kind : ReturnKind) (pristine : Val) (st : RState) : List ROp → List (Option Val)
+  | [] => []
+  | op :: ops => (stepR kind pristine st op).2 :: outsR kind pristine (stepR kind pristine st op).1 ops
+
+def returnOK (s : ReturnSite) : Bool := s.kind == .fresh
+
 end OQuPyVerif.Aliasing
